@@ -1029,6 +1029,14 @@ class PlusMinusPlugin(Plugin):
     def filters(self, parser):
         return [(self.do_plusminus, 510)]
 
+    def _has_markers(self, group):
+        for node in group:
+            if isinstance(node, (self.Plus, self.Minus)):
+                return True
+            elif isinstance(node, syntax.GroupNode) and self._has_markers(node):
+                return True
+        return False
+
     def do_plusminus(self, parser, group):
         """This filter sorts nodes in a flat group into "required", "optional",
         and "banned" subgroups based on the presence of plus and minus nodes.
@@ -1052,6 +1060,10 @@ class PlusMinusPlugin(Plugin):
                 # -: put the next node in the banned group
                 next = banned
             else:
+                if (isinstance(node, syntax.GroupNode)
+                    and self._has_markers(node)):
+                    # Sort the plus and minus markers inside a sub-group too
+                    node = self.do_plusminus(parser, node)
                 # Anything else: put it in the appropriate group
                 next.append(node)
                 # Reset to putting things in the optional group by default
